@@ -202,7 +202,7 @@ theorem scheduleFutureU_sinv {s : St} {t time : Nat} (h : SInv s) (hlt : t < s.n
       cases ho
       simp only [Elem.mk.injEq] at he
       exact hne (by rw [he.2])
-    rcases pushRef_spec (e := ⟨time, t⟩) (h := some t) h.heap hleg hfo with ⟨_, hfull⟩ | ⟨_, _, _, hcap⟩ | ⟨q', he, _, hq', hs', hc'⟩
+    rcases pushRef_spec tsCmp_ok (e := ⟨time, t⟩) (h := some t) h.heap hleg hfo with ⟨_, hfull⟩ | ⟨_, _, _, hcap⟩ | ⟨q', he, _, hq', hs', hc'⟩
     · rw [isFull_dyn h.dyn] at hfull; cases hfull
     · simp [h.dyn] at hcap
     · simp only [he]
@@ -300,12 +300,12 @@ theorem cancel_sinv {s : St} {t : Nat} (st : Status) (c : Cause) (h : SInv s) (h
       rcases Nat.lt_or_ge i s.timed.items.size with h1 | h1
       · exact h1
       · simp [Array.getElem?_eq_none h1] at hit
-    obtain ⟨e, he, hr, hq', hs', hc', _⟩ := removeNode_spec h.heap (items_nodup h) (heap_size_lt h) hilt
+    obtain ⟨e, he, hr, hq', hs', hc', _⟩ := removeNode_spec tsCmp_ok h.heap (items_nodup h) (heap_size_lt h) hilt
     have hee : e = ⟨s.ts t, t⟩ := by rw [hit] at he; exact (Option.some.inj he).symm
     rw [remove_live h.heap hi]
     have hem : e ∈ s.timed.items.toList := Array.mem_def.mp (Array.mem_of_getElem? he)
-    have hperm : (removeNode s.timed i).1.items.toList.Perm (s.timed.items.toList.erase e) := hq'.frame.perm
-    have hcount : ∀ x, ((removeNode s.timed i).1.items.toList.map (·.uid)).count x + (if t = x then 1 else 0) =
+    have hperm : (removeNode tsCmp s.timed i).1.items.toList.Perm (s.timed.items.toList.erase e) := hq'.frame.perm
+    have hcount : ∀ x, ((removeNode tsCmp s.timed i).1.items.toList.map (·.uid)).count x + (if t = x then 1 else 0) =
         (s.timed.items.toList.map (·.uid)).count x := by
       intro x
       rw [(hperm.map (·.uid)).count_eq x]
